@@ -1,5 +1,6 @@
 import MtailVerif.Proofs.VMMemo
 import MtailVerif.Generated.VM
+import MtailVerif.Proofs.Skeletons
 /-! # C05 — a line's effect never depends on earlier lines except through metrics
 
     What `vm.VM` keeps between lines is, in the model, exactly the arguments of `runLine`: the
@@ -82,5 +83,12 @@ example : ∃ (o : Oracle) (p : Prog) (hist : List Input), (after o p 10 hist []
     replaceAll := fun v _ _ => v, reReplace := fun _ v _ => v, timeParse := fun _ _ => some 5, nowSec := 0 }
   refine ⟨o, ⟨[⟨.str, .int 0⟩, ⟨.str, .int 0⟩, ⟨.strptime, .int 2⟩], [[65]], 0, []⟩, [⟨[], []⟩], ?_⟩
   decide
+
+/-! ### regenerated control skeletons (written by lib/wire_skeletons.py) -/
+/-- Obligations over regenerated facts: the functions this property's model stands for have the
+    control skeleton the model was written against (`Proofs/Skeletons.lean`, one `rfl` per function
+    or clause; DESIGN.md §11.6a) -/
+theorem line_skeletons : Skeletons.LineShape := Skeletons.line_shape
+theorem exec_skeletons : Skeletons.ExecShape := Skeletons.exec_shape
 
 end MtailVerif.C05
